@@ -401,7 +401,10 @@ def join(a, b):
     if isinstance(a, Obj) and isinstance(b, Obj):
         if a is b:
             return a
-        return Obj({k: join(a.attrs.get(k), b.attrs.get(k)) for k in set(a.attrs) | set(b.attrs)}, a.cls)
+        o_ = Obj({k: join(a.attrs.get(k), b.attrs.get(k)) for k in set(a.attrs) | set(b.attrs)}, a.cls)
+        if getattr(a, "nt_fields", None) and getattr(a, "nt_fields", None) == getattr(b, "nt_fields", None):
+            o_.nt_fields = list(a.nt_fields)
+        return o_
     if isinstance(a, (Fn, Ext, ModV, ClsV)) or isinstance(b, (Fn, Ext, ModV, ClsV)):
         return a
     if isinstance(a, Deg) and isinstance(b, (Tup, Lst)):
@@ -545,6 +548,8 @@ def elem(a):
         return AnyR(a.rank - 1) if a.rank else ANY
     if isinstance(a, Dct):
         return BOOL
+    if nt_items(a) is not None:
+        return elem(Tup(nt_items(a)))
     return a if isinstance(a, (Top, Unk)) else Unk(f"elem({a})")
 
 
@@ -814,6 +819,17 @@ def t_isclose(args, kw, node):
             if isinstance(vx, Deg) and vx.sup != {()} and not explicit_zero and not (at is not None and isinstance(num(at), Deg) and num(at).sup == vx.sup):
                 CTX.event("decision", node, f"isclose(x, 0) with an absolute tolerance on a quantity of degree {vx.fmt()}")
             break
+    else:
+        # |a - b| <= atol + rtol * |b|: with the default atol = 1e-8 (or any pure number) next to rtol * |b| the bound is a sum of two
+        # degrees when b carries a unit - at small enough data everything "is close"
+        at = kw.get("atol")
+        explicit_zero = isinstance(at, Cst) and at.v == 0
+        vb = num(args[1])
+        # (judged for quantities that carry the data unit g: the gain range of the properties, 1e-6..1e6, brings rtol*|b| below 1e-8; a frequency
+        #  in any admissible time unit does not come near it - there the default only moves the edge of the band by rounding-size amounts)
+        if isinstance(vb, Deg) and vb.sup != {()} and () not in vb.sup and not is_may(vb) and not explicit_zero and all(any(s_ == "g" for s_, _ in t_) for t_ in vb.sup) \
+                and not (at is not None and isinstance(num(at), Deg) and num(at).sup == vb.sup) and (at is None or isinstance(at, Cst)):
+            CTX.event("decision", node, f"isclose(a, b) adds the absolute tolerance {'1e-8 (default)' if at is None else at.v} to rtol*|b| with b of degree {vb.fmt()}")
     return BOOL
 
 
@@ -875,6 +891,9 @@ def t_len(args, kw, node):
         return Cst(len(a.items))
     if isinstance(a, Dct):
         return Cst(len(a.d))
+    dims = getattr(a, "dims", None)
+    if isinstance(a, Deg) and dims:
+        return dims[0]                  # len(array) is its first extent: the same value as array.shape[0]
     return Deg({()}, 0)
 
 
@@ -1132,7 +1151,7 @@ NP = {
     "dot": t_dot, "matmul": t_dot, "kron": t_kron, "outer": t_outer, "round": t_round, "around": t_round, "rint": t_round, "floor": t_round, "ceil": t_round, "trunc": t_round, "float64": t_array, "float32": t_array, "complex128": t_array, "int64": t_int, "vstack": t_stack, "hstack": t_stack, "concatenate": t_stack,
     "stack": t_stack, "column_stack": t_stack, "block": lambda a, k, n: withrank(num(a[0]), 2), "row_stack": t_stack, "array": t_array, "asarray": t_array, "zeros": t_zero,
     "empty": t_zero, "zeros_like": t_zeros_like, "empty_like": t_zeros_like, "ones": t_ones, "ones_like": t_ones_like,
-    "full": t_full, "full_like": t_full_like, "ascontiguousarray": t_array, "asanyarray": t_array, "asfortranarray": t_array, "eye": t_eye, "identity": t_eye, "diag": t_diag, "sqrt": t_sqrt, "abs": t_abs, "absolute": t_abs,
+    "full": t_full, "full_like": t_full_like, "ascontiguousarray": t_array, "asanyarray": t_array, "asfortranarray": t_array, "eye": t_eye, "identity": t_eye, "diag": t_diag, "diagonal": lambda a, k, n: withrank(_a(a), (getattr(_a(a), "rank", None) - 1) if isinstance(getattr(_a(a), "rank", None), int) and getattr(_a(a), "rank", None) >= 2 else None), "sqrt": t_sqrt, "abs": t_abs, "absolute": t_abs,
     "real": t_same, "imag": t_same, "conj": t_same, "conjugate": t_same, "transpose": t_same, "squeeze": t_same,
     "log": t_log, "log10": t_log, "log2": t_log, "exp": t_exp, "arccos": t_arccos, "arcsin": t_arccos, "cos": t_arccos, "sin": t_arccos,
     "angle": lambda a, k, n: Deg({()}, getattr(_a(a), "rank", None)),
@@ -1378,6 +1397,8 @@ def assign(t, v, fr, node):
         fr.env[t.id] = v
     elif isinstance(t, (ast.Tuple, ast.List)):
         stars = [k for k, x in enumerate(t.elts) if isinstance(x, ast.Starred)]
+        if nt_items(v) is not None:
+            v = Tup(nt_items(v))
         seq = v.items if isinstance(v, Tup) else (v.items if isinstance(v, Lst) and v.tail is None else None)
         if len(stars) == 1 and seq is not None and len(seq) >= len(t.elts) - 1:
             # a, b, *rest = (x0, x1, x2, ...): the starred target takes the middle as a list
@@ -1825,6 +1846,8 @@ def _is_none(i):
 
 
 def subscript(base, idx, node):
+    if nt_items(base) is not None:
+        base = Tup(nt_items(base))
     if isinstance(base, Ext) and base.name in ("numpy.r_", "numpy.c_"):
         its = idx.items if isinstance(idx, Tup) else [idx]
         r = ANY
@@ -2069,6 +2092,9 @@ def compare(op, l, r, node):
             return Cst(isinstance(op, ast.IsNot))
         if isinstance(r, Cst) and isinstance(r.v, bool) and isinstance(l, Cst):
             return Cst((l.v is r.v) == isinstance(op, ast.Is))
+        if isinstance(l, Deg) and isinstance(r, Deg) and l.sup != r.sup and len(l.sup) == 1 and len(r.sup) == 1 and not is_may(l) and not is_may(r) \
+                and () not in l.sup and () not in r.sup:
+            return Cst(isinstance(op, ast.IsNot))       # one object has one degree: two values of different exact degrees are two objects
         return BOOL
     if isinstance(op, (ast.In, ast.NotIn)):
         if isinstance(l, Cst) and isinstance(r, (Tup, Lst)) and all(isinstance(i, Cst) for i in r.items) and getattr(r, "tail", None) is None:
@@ -2438,11 +2464,54 @@ def call_ext(n, args, kw, e, fr):
     return Unk(f"call {n}")
 
 
+def astq_src(e):
+    try:
+        return ast.unparse(e)
+    except Exception:
+        return ""
+
+
+def namedtuple_fields(ci):
+    """([field names], {field: default value}) of a class written `class X(typing.NamedTuple): a: T; b: T = v`, else None"""
+    node = getattr(ci, "node", None)
+    if node is None or not any(astq_src(b).split(".")[-1] == "NamedTuple" for b in node.bases):
+        return None
+    names, defaults = [], {}
+    for st in node.body:
+        if isinstance(st, ast.AnnAssign) and isinstance(st.target, ast.Name):
+            names.append(st.target.id)
+            if st.value is not None:
+                try:
+                    defaults[st.target.id] = Cst(ast.literal_eval(st.value))
+                except Exception:
+                    defaults[st.target.id] = ANY
+    return names, defaults
+
+
+def nt_items(o):
+    """the fields of a NamedTuple object in order, or None"""
+    f = getattr(o, "nt_fields", None)
+    return [o.attrs.get(k, ANY) for k in f] if isinstance(o, Obj) and f else None
+
+
 def instantiate(ci, args, kw, node):
     o = Obj({}, ci)
     init = CTX.prog.find_method(ci, "__init__")
     # pydantic-style models (no __init__ in the package): fields from keywords + class defaults via MRO
     if init is None:
+        nt = namedtuple_fields(ci)
+        if nt is not None:
+            # typing.NamedTuple: positional arguments fill the fields in order, class-level values are the defaults; the object is
+            # also the tuple of its fields (unpacking, indexing)
+            names, defaults = nt
+            for k, d_ in defaults.items():
+                o.attrs[k] = d_
+            for k, v in zip(names, args):
+                o.attrs[k] = v
+            for k, v in kw.items():
+                o.attrs[k] = v
+            o.nt_fields = list(names)
+            return o
         for k, v in kw.items():
             o.attrs[k] = v
         return o
